@@ -49,6 +49,10 @@ def run(ctx):
     # ---- split versus shlex ----
     sl = 5 if quick else 7
     sinputs = [''.join(t) for n in range(0, sl + 1) for t in itertools.product(SALPHA, repeat=n)]
+    # '=' is a plain character too: a word with '=' in command position is an ASSIGNMENT_WORD token, which split must treat like any word
+    sinputs += [''.join(t) for n in range(2, (5 if quick else 6) + 1) for t in itertools.product(['a', '=', "'", '"', '\\', ' '], repeat=n) if '=' in t]
+    sinputs += ["a='b' c", 'a=\\b', "x a='b'", 'a="b c" d', 'a+=b c', "a='b'\"c\" d", 'if a=b', "a=b c='d e'", '1=a', "a==''"]
+    sinputs = common.dedup(sinputs)
     if ctx.get('replay'):
         rp = json.load(open(ctx['replay'])); sinputs = [rp['input']] if rp.get('entry') == 'split' else []
     sreqs = [('split', {}, s) for s in sinputs]
